@@ -35,8 +35,11 @@ Fixpoint drop_while (p : N -> bool) (l : str) : str :=
 Fixpoint take_while (p : N -> bool) (l : str) : str :=
   match l with [] => [] | c :: r => if p c then c :: take_while p r else [] end.
 
+(* linear-time reverse (List.rev is quadratic); rv l = rev l is StrLemmas.rv_rev *)
+Definition rv (l : str) : str := rev_append l [].
+
 Definition trim_start (l : str) : str := drop_while is_ws l.
-Definition trim_end (l : str) : str := rev (drop_while is_ws (rev l)).
+Definition trim_end (l : str) : str := rv (drop_while is_ws (rv l)).
 Definition trim (l : str) : str := trim_end (trim_start l).
 
 Fixpoint str_eqb (a b : str) : bool :=
@@ -55,7 +58,7 @@ Fixpoint strip_prefix (p l : str) : option str :=
 Definition starts_with (p l : str) : bool :=
   match strip_prefix p l with Some _ => true | None => false end.
 Definition strip_suffix (p l : str) : option str :=
-  match strip_prefix (rev p) (rev l) with Some r => Some (rev r) | None => None end.
+  match strip_prefix (rv p) (rv l) with Some r => Some (rv r) | None => None end.
 Definition ends_with (p l : str) : bool :=
   match strip_suffix p l with Some _ => true | None => false end.
 
@@ -79,8 +82,8 @@ Fixpoint utf8_len (l : str) : N :=
 (* split_inclusive('\n'): every piece but possibly the last ends with '\n'; no empty piece *)
 Fixpoint split_incl_go (l : str) (cur : str) : list str :=
   match l with
-  | [] => match cur with [] => [] | _ => [rev cur] end
-  | c :: r => if c =? 10 then rev (c :: cur) :: split_incl_go r [] else split_incl_go r (c :: cur)
+  | [] => match cur with [] => [] | _ => [rv cur] end
+  | c :: r => if c =? 10 then rv (c :: cur) :: split_incl_go r [] else split_incl_go r (c :: cur)
   end.
 Definition split_incl (l : str) : list str := split_incl_go l [].
 
@@ -95,9 +98,9 @@ Definition str_lines (l : str) : list str := map strip_eol (split_incl l).
 (* split_whitespace *)
 Fixpoint split_ws_go (l : str) (cur : str) : list str :=
   match l with
-  | [] => match cur with [] => [] | _ => [rev cur] end
+  | [] => match cur with [] => [] | _ => [rv cur] end
   | c :: r => if is_ws c
-              then match cur with [] => split_ws_go r [] | _ => rev cur :: split_ws_go r [] end
+              then match cur with [] => split_ws_go r [] | _ => rv cur :: split_ws_go r [] end
               else split_ws_go r (c :: cur)
   end.
 Definition split_ws (l : str) : list str := split_ws_go l [].
